@@ -189,6 +189,8 @@ impl Tzif {
 
     #[cfg(target_family = "unix")]
     pub fn read_tzif(identifier: &str) -> TemporalResult<Self> {
+        #[cfg(all(temporal_verif, feature = "sys"))]
+        crate::verif_hooks::point("tzif.read");
         let mut path = PathBuf::from(ZONEINFO_DIR);
         path.push(identifier);
         Self::from_path(&path)
@@ -213,6 +215,8 @@ impl Tzif {
     }
 
     pub fn get(&self, epoch_seconds: &Seconds) -> TemporalResult<TimeZoneOffset> {
+        #[cfg(all(temporal_verif, feature = "sys"))]
+        crate::verif_hooks::point("tzif.offset");
         let db = self.get_data_block2()?;
 
         let result = db.transition_times.binary_search(epoch_seconds);
@@ -267,6 +271,8 @@ impl Tzif {
     /// be provided. This time does NOT exist due to the +1 jump from
     /// 02:00 -> 03:00 (but of course it does as a nanosecond value).
     pub fn v2_estimate_tz_pair(&self, seconds: &Seconds) -> TemporalResult<LocalTimeRecordResult> {
+        #[cfg(all(temporal_verif, feature = "sys"))]
+        crate::verif_hooks::point("tzif.local");
         // We need to estimate a tz pair.
         // First search the ambiguous seconds.
         let db = self.get_data_block2()?;
